@@ -202,6 +202,27 @@ theorem exactly_once_partial (cmds : List (Cmd × List Nat)) (hc : ∀ p ∈ cmd
   simp only [List.mem_map]
   rintro n ⟨_, _, rfl⟩; rfl
 
+/-- **What a command returns after earlier shell-side timeouts, in general**: whatever the timed-out commands left in the
+    pipe is returned *in front of* the next command's own output (one `strip` around both), that command is executed once, and
+    the pipe is clean again afterwards — for every stale content, every command and every chunking. -/
+theorem next_command_returns_stale_prefix (s : St) (c : Cmd) (cuts : List Nat)
+    (h : Framable { c with out := s.pipe ++ c.out }) :
+    runStep s c (.ok cuts) =
+      { pipe := [], execs := s.execs ++ [1], results := s.results ++ [(strip (s.pipe ++ c.out), c.rc)] } := by
+  unfold runStep
+  have e : s.pipe ++ framed c.out c.marker c.rc = framed (s.pipe ++ c.out) c.marker c.rc := by
+    simp [framed, List.append_assoc]
+  simp only [e]
+  rw [framing_exact (s.pipe ++ c.out) c.marker c.rc _ h.1 h.2.1 h.2.2 (chunkBy_nonempty _ _) (chunkBy_flatten _ _)]
+  simp
+
+/-- hence the shell is observationally equivalent to fresh processes again from the second command after a timeout on -/
+theorem recovers_after_one_command (s : St) (c d : Cmd) (cuts cuts' : List Nat)
+    (hc : Framable { c with out := s.pipe ++ c.out }) (hd : Framable d) :
+    (runStep (runStep s c (.ok cuts)) d (.ok cuts')).results
+      = s.results ++ [(strip (s.pipe ++ c.out), c.rc)] ++ [fresh d] := by
+  rw [next_command_returns_stale_prefix s c cuts hc, runStep_ok _ d cuts' rfl hd]
+
 /-- the two commands of the witness: `LATE` times out in the shell, `SECOND` follows -/
 def late : Cmd := { out := "LATE\n".toList, rc := "0".toList, marker := "M1".toList }
 def second : Cmd := { out := "SECOND\n".toList, rc := "0".toList, marker := "M2".toList }
